@@ -14,3 +14,11 @@ Theorem C02_merge_keeps_others : forall (rs : rset) h r,
   ~ In r (map fst rs) -> lookup r (merge_set rs h) = lookup r h.
 Proof. exact merge_keeps_others. Qed.
 Print Assumptions C02_merge_keeps_others.
+
+(* An error entry in a resource set (e.g. the access error of a call's resource response) does not destroy data the
+   client already holds for that resource. *)
+Theorem C02_error_entry_keeps_data : forall h r code d,
+  lookup r h = Some d -> (match d with RErr _ => False | _ => True end) ->
+  lookup r (merge_set [(r, RErr code)] h) = Some d.
+Proof. exact error_entry_keeps_data. Qed.
+Print Assumptions C02_error_entry_keeps_data.
